@@ -136,6 +136,7 @@ def normalise_fw(events, dev: hostobs.Devices, *, keep_config=False):
         for role, p in zip(("in1", "in2", "en"), m):
             motor_pins[p] = (m, role)
     mstate = {}
+    servo_pin = {}
     for ev in events:
         k = ev[0]
         if k == "marker":
@@ -183,12 +184,13 @@ def normalise_fw(events, dev: hostobs.Devices, *, keep_config=False):
                 out.append(ev)
             continue
         elif k == "servo_attach":
+            servo_pin[ev[1]] = ev[2].v if isinstance(ev[2], BV) and ev[2].concrete else ev[2]
             if keep_config:
                 out.append(ev)
         elif k == "servo_write":
-            out.append(("servo_write", ev[1], ev[2]))
+            out.append(("servo_angle", servo_pin.get(ev[1], ev[1]), ev[2]))
         elif k == "servo_us":
-            out.append(("servo_us", ev[1], ev[2]))
+            out.append(("servo_pulse", servo_pin.get(ev[1], ev[1]), ev[2]))
         else:
             out.append(ev)
     return out
@@ -223,8 +225,22 @@ def _same_term(a, b):
 def drop_redundant_levels(evs):
     """A write of the level a pin already has is not observable on the pin: drop it (both sides)."""
     last = {}
+    lastm = {}
     out = []
     for ev in evs:
+        if ev[0] == "marker":
+            # pass boundaries may carry a havocked device state (inductive steps): forget pin history
+            last, lastm = {}, {}
+        if ev[0] == "motor":
+            key = tuple(ev[1])
+            sig = tuple(z3.simplify(x.z()) if isinstance(x, (BV, FP)) else
+                        (z3.simplify(pysym.zfp(x)) if pysym.is_sym(x) else x) for x in ev[2:])
+            prev = lastm.get(key)
+            if prev is not None and len(prev) == len(sig) and all(
+                    (a.eq(b) if z3.is_expr(a) and z3.is_expr(b) else (not z3.is_expr(a) and not z3.is_expr(b) and a == b))
+                    for a, b in zip(prev, sig)):
+                continue
+            lastm[key] = sig
         if ev[0] == "level":
             v = ev[2]
             if isinstance(v, pysym.SymInt):
@@ -391,14 +407,64 @@ def motor_differs(f, h):
     return z3.Not(z3.And(near, dir_ok, z3.Implies(zero, _zi(dz) == z3.BitVecVal(0, 64))))
 
 
+def servo_differs(kind, f, h):
+    """f: (kind, pin, int command) ; h: (kind, pin, angle, pulse).  The device API takes whole degrees /
+    microseconds: the command must be the host value rounded (|diff| <= 0.5 + float tolerance)."""
+    if f[1] != h[1]:
+        return True
+    hv = h[2] if kind == "servo_angle" else h[3]
+    nh = as_num(hv)
+    if nh is None:
+        return True
+    hf = nh[1] if nh[0] == "f" else (float(nh[1]) if isinstance(nh[1], int) else z3.fpSignedToFP(RNE, nh[1], F64))
+    fz = f_int64(f[2])
+    ff = float(fz) if isinstance(fz, int) else z3.fpSignedToFP(RNE, fz, F64)
+    if isinstance(ff, float) and isinstance(hf, float):
+        return abs(ff - hf) > 0.5 + FLT_ABS + FLT_REL * abs(hf)
+    d = z3.fpAbs(z3.fpSub(RNE, _zf(ff), _zf(hf)))
+    tol = z3.fpAdd(RNE, z3.FPVal(0.5 + FLT_ABS, F64), z3.fpMul(RNE, z3.FPVal(FLT_REL, F64), z3.fpAbs(_zf(hf))))
+    return z3.Not(z3.fpLEQ(d, tol))
+
+
+def _delay_nonzero(ev):
+    v = ev[1]
+    n = as_num(v)
+    if n is None:
+        return True
+    if n[0] == "i":
+        if isinstance(n[1], int):
+            return n[1] != 0
+        return n[1] != z3.BitVecVal(0, 64)
+    if isinstance(n[1], float):
+        return n[1] != 0.0
+    return z3.Not(z3.fpIsZero(n[1]))
+
+
 def traces_differ(tf, th):
-    """-> (definite: bool, conds: list[z3 Bool], where: str)"""
+    """-> (definite: bool, conds: list[z3 Bool], where: str).  A zero-length delay present on one side only
+    is not a difference (it is skipped under the condition that it is zero)."""
     tf, th = merge_serial(tf), merge_serial(th)
     conds = []
-    n = min(len(tf), len(th))
-    for i in range(n):
-        a, b = tf[i], th[i]
+    i = j = 0
+    while i < len(tf) and j < len(th):
+        a, b = tf[i], th[j]
         if a[0] != b[0]:
+            if a[0] == "delay":
+                nz = _delay_nonzero(a)
+                if nz is True:
+                    return True, [], f"event {i}: firmware {a[0]} vs python {b[0]}"
+                if nz is not False:
+                    conds.append(nz)
+                i += 1
+                continue
+            if b[0] == "delay":
+                nz = _delay_nonzero(b)
+                if nz is True:
+                    return True, [], f"event {i}: firmware {a[0]} vs python {b[0]}"
+                if nz is not False:
+                    conds.append(nz)
+                j += 1
+                continue
             return True, [], f"event {i}: firmware {a[0]} vs python {b[0]}"
         k = a[0]
         if k == "marker":
@@ -432,6 +498,12 @@ def traces_differ(tf, th):
                 return True, [], f"event {i}: motor"
             if d is not False:
                 conds.append(d)
+        elif k in ("servo_angle", "servo_pulse"):
+            d = servo_differs(k, a, b)
+            if d is True:
+                return True, [], f"event {i}: {k}"
+            if d is not False:
+                conds.append(d)
         else:
             if len(a) != len(b):
                 return True, [], f"event {i}: {k} arity"
@@ -444,9 +516,19 @@ def traces_differ(tf, th):
                         conds.append(d)
                 elif x != y:
                     return True, [], f"event {i}: {k} payload"
-    if len(tf) != len(th):
-        longer = tf if len(tf) > len(th) else th
-        return True, [], f"trace length firmware {len(tf)} vs python {len(th)} (first extra: {longer[n][0]})"
+        i += 1
+        j += 1
+    # leftovers: only zero-length delays may remain
+    for rest, side in ((tf[i:], "firmware"), (th[j:], "python")):
+        for ev in rest:
+            if ev[0] == "delay":
+                nz = _delay_nonzero(ev)
+                if nz is True:
+                    return True, [], f"trace length: extra {side} delay"
+                if nz is not False:
+                    conds.append(nz)
+            else:
+                return True, [], f"trace length firmware {len(tf)} vs python {len(th)} (first extra {side}: {ev[0]})"
     return False, conds, ""
 
 
@@ -549,14 +631,14 @@ def parse_runtime_output(text: str):
     return evs
 
 
-def run_host_concrete(src: str, passes: int, inputs: Dict[str, float]):
+def run_host_concrete(src: str, passes: int, inputs: Dict[str, float], prestate=None):
     """Run the script on stock CPython (no proxies) with the inputs of the model."""
     ce = pysym.ConcreteEngine({k: (int(v) if not isinstance(v, float) or float(v).is_integer() else v)
                                for k, v in inputs.items()})
     box = {}
 
     def fn():
-        box["hw"] = hostobs.run_script(src, passes, patched=False)
+        box["hw"] = hostobs.run_script(src, passes, patched=False, setup_done=prestate.host if prestate else None)
     out = ce.run(fn)
     return out, box.get("hw")
 
@@ -564,11 +646,13 @@ def run_host_concrete(src: str, passes: int, inputs: Dict[str, float]):
 # ------------------------------------------------------------------ the differential obligation
 class ScriptDiff:
     def __init__(self, oid, src, passes=2, *, max_block_visits=40, max_paths=600, timeout_ms=20000,
-                 budget_s=240, check_ub=False, claim_timeout_ms=90000):
+                 budget_s=240, check_ub=False, claim_timeout_ms=90000, prestate=None, fw_only_check=None):
         self.oid, self.src, self.passes = oid, src, passes
         self.max_block_visits, self.max_paths = max_block_visits, max_paths
         self.timeout_ms, self.budget_s, self.check_ub = timeout_ms, budget_s, check_ub
         self.claim_timeout_ms = claim_timeout_ms
+        self.prestate = prestate          # object with host(g, hw) and fw(ex, st): havoc state after setup
+        self.fw_only_check = fw_only_check
 
     def run(self) -> Result:
         t0 = time.time()
@@ -602,7 +686,8 @@ class ScriptDiff:
         box = {}
 
         def hfn():
-            box["hw"] = hostobs.run_script(self.src, self.passes)
+            box["hw"] = hostobs.run_script(self.src, self.passes,
+                                           setup_done=self.prestate.host if self.prestate else None)
             return box["hw"].devices
 
         def on_h(out):
@@ -628,6 +713,8 @@ class ScriptDiff:
             st = ex.init_state()
             st.pc = list(out.pc)
             entries = [(c, []) for c in mod.ctors] + [("#setup", []), ("_Z5setupv", [])]
+            if self.prestate:
+                entries.append((self.prestate.fw, []))
             for _ in range(self.passes):
                 entries += [("#loop", []), ("_Z4loopv", [])]
             fpaths = []
@@ -648,11 +735,30 @@ class ScriptDiff:
                 tf = normalise_fw(pr.events, dev)
                 definite, conds, where = traces_differ(tf, th)
                 if definite:
-                    r, m = ex.model_for()
-                    if r == "sat":
-                        cex = (m, where, pr.state.inputs, out.inputs)
-                    elif r == "unknown":
-                        inconc.append("unknown: path feasibility at " + where)
+                    # structural mismatch: any model of the path is a candidate, but value-dependent
+                    # normalisation (redundant writes, zero delays) may make a particular model agree:
+                    # try a few distinct models, keep the first that replays.
+                    block = []
+                    for _try in range(6):
+                        r, m = ex.model_for(*block)
+                        if r == "unknown":
+                            inconc.append("unknown: path feasibility at " + where)
+                            break
+                        if r != "sat":
+                            if _try > 0:
+                                inconc.append("structural mismatch whose models do not replay: " + where)
+                            break
+                        probe = self._replay(Result(self.oid, "holds"), cpp, dict(m), where)
+                        if probe.verdict == "violation":
+                            cex = (m, where, pr.state.inputs, out.inputs)
+                            break
+                        if probe.verdict == "harness-error" and "did not replay" not in probe.detail:
+                            inconc.append("replay problem: " + probe.detail[:120])
+                            break
+                        diff_in = [v != smt.to_z3_value(v, m[n]) for n, v in pr.state.inputs if n in m]
+                        if not diff_in:
+                            break
+                        block.append(z3.Or(diff_in))
                     return
                 conds = [c for c in conds if not (c is False)]
                 if not conds:
@@ -702,12 +808,14 @@ class ScriptDiff:
         return res
 
     def _replay(self, res: Result, cpp, assign, where):
+        if self.prestate:
+            cpp = cpp + self.prestate.cpp(assign)
         fev, err = run_firmware_concrete(cpp, self.passes, assign)
         if fev is None:
             res.verdict = "harness-error"
             res.detail = "replay: " + err
             return res
-        hout, hw = run_host_concrete(self.src, self.passes, assign)
+        hout, hw = run_host_concrete(self.src, self.passes, assign, self.prestate)
         if hout.status == "raised":
             # python raises on these inputs: outside the property; the symbolic side should have excluded it
             res.verdict = "harness-error"
@@ -736,11 +844,12 @@ class ScriptDiff:
 
 
 def classify(where: str) -> str:
-    if "length" in where:
-        return "trace-length"
-    if "vs python" in where:
-        return "event-kind"
-    return "value"
+    """Witness class used to match known findings: the kind of difference with numbers abstracted."""
+    import re
+    w = re.sub(r"event \d+: ", "", where)
+    w = re.sub(r"0x[0-9a-f]+", "#", w)
+    w = re.sub(r"-?\d+(\.\d+)?", "#", w)
+    return w[:80]
 
 
 def _render(tr):
